@@ -18,11 +18,19 @@ def tm(k, v, ck='iri', tt=''):
     return {'k': k, 'v': v, 'ck': ck, 'tt': tt}
 
 
-def build_case(rng, nrows, safe, printable, nquads=True):
+FOCUS = ['\\', '"', "'", '%', '\t', '\n', '<>', '{}', ' ', 'é', '\x07', '\u2028', '^|`']
+
+
+def build_case(rng, nrows, safe, printable, nquads=True, focus=None):
+    """focus: every value of the table is made of letters, digits and the characters of ONE class only (a column whose only special
+    character is the backslash, the quote, well-formed %XX sequences ...) -- column-wise fast paths decide on the column as a whole"""
     rows = []
+    def fv():
+        parts = [rng.choice(['a', 'B', '7', 'C:', 'new', 'tab', 'x', '41', 'C3', 'A9', '25', '2F', '', 'caf']) for _ in range(rng.choice([1, 2, 3, 4]))]
+        return ''.join(p + (rng.choice(focus) if rng.random() < 0.7 else '') for p in parts) or 'a'
     for i in range(nrows):
-        v = mapcase.gen_value(rng, mapcase.NASTY)
-        w = mapcase.gen_value(rng, mapcase.NASTY)
+        v = fv() if focus else mapcase.gen_value(rng, mapcase.NASTY)
+        w = fv() if focus else mapcase.gen_value(rng, mapcase.NASTY)
         l = rng.choice(['en', 'es', 'en-GB', 'de-1996', 'x y', '', 'é', 'EN', 'a1', '1a', 'en-', 'zh-Hant-TW'] if rng.random() < 0.4 else ['en'])
         rows.append([str(i), v, w, l])
     def o(m, lang=None, dt=None):
@@ -52,7 +60,7 @@ def pct_expected(s, safe):
 def run(ctx, res):
     res.rule = ('one mapping with eight object-map kinds (reference literal, template literal, template IRI, reference IRI, template / reference blank node, '
                 'reference-valued language map, template-valued datatype map) plus a template graph map, over tables of composed strings (every character class '
-                'at the start / end / inside a value) x safe_percent_encoding in {empty, :/, /?} x only_printable_chars; implementation lines must equal the '
+                'at the start / end / inside a value) and over small tables whose values use ONE special character class only (backslash, quote, %XX, ...) x safe_percent_encoding in {empty, :/, /?} x only_printable_chars; implementation lines must equal the '
                 'Engine model lines; every line is parsed by pyoxigraph (strict) and by the Gallina reader, and decoded back to the source value; '
                 'distinct = distinct (kind, value) pair; non-trivial = value containing a character outside [A-Za-z0-9]')
     known = set(ctx.known)
@@ -61,6 +69,7 @@ def run(ctx, res):
     if not ctx.quick:
         variants += [(':/?@!$&()*+,;=', False), ('é', False)]
     cases = [build_case(ctx.rng, nrows, safe, pr) for safe, pr in variants for _ in range(ctx.scale(1, 3))]
+    cases += [build_case(ctx.rng, ctx.scale(12, 40), ctx.rng.choice(['', '', ':/']), ctx.rng.random() < 0.3, focus=f) for f in FOCUS for _ in range(ctx.scale(1, 4))]
     batch = family.Batch(ctx)
     recs = batch.run(cases, want_spec=False, timeout=600)
     for rec in recs:
@@ -117,7 +126,11 @@ def run(ctx, res):
                 exp = ['lit', 'a ' + v + ' b' + w, '', '']
             elif kind == 'tiri':
                 exp = ['iri', EX + 'o/' + pct_expected(v, safe) + '/' + pct_expected(w, safe)]
-                if obj[0] == 'iri' and urllib.parse.unquote(obj[1][len(EX + 'o/'):], errors='strict') != v + '/' + w:
+                try:
+                    back = urllib.parse.unquote(obj[1][len(EX + 'o/'):], errors='strict') if obj[0] == 'iri' else None
+                except UnicodeDecodeError:
+                    back = '<not UTF-8>'
+                if obj[0] == 'iri' and back != v + '/' + w:
                     exp = ['iri', '<percent-decoding does not give back the values>']
             elif kind == 'riri':
                 exp = ['iri', v]
